@@ -384,7 +384,10 @@ def build(scn, seed=0, rng=None, const_fn=None, signatures=True, name_fn=None):
       elif code == "CONV_2D_TRANSPOSE":
         g.op(sg, bc, ins, outs, opt(S.TransposeConvOptionsT, padding=S.Padding.SAME, strideW=1, strideH=1), BO.TransposeConvOptions)
       elif code == "BATCH_MATMUL":
-        g.op(sg, bc, ins, outs, opt(S.BatchMatMulOptionsT, adjX=False, adjY=False), BO.BatchMatMulOptions)
+        # the constant rhs is square in its last two dimensions, so it can be used transposed (adj_y) or not
+        adjy = bool((seed + si + oi) % 2)
+        info.setdefault("bmm_adjy", {})["%d,%d" % (si, oi)] = adjy
+        g.op(sg, bc, ins, outs, opt(S.BatchMatMulOptionsT, adjX=False, adjY=adjy), BO.BatchMatMulOptions)
       elif code == "AVERAGE_POOL_2D":
         g.op(sg, bc, ins, outs, opt(S.Pool2DOptionsT, padding=S.Padding.SAME, strideW=1, strideH=1, filterWidth=2, filterHeight=2), BO.Pool2DOptions)
       elif code == "RESHAPE":
